@@ -1,4 +1,4 @@
-//go:build verif
+//go:build verif && go1.18
 
 // Package c19: agents alert exactly when verification fails; the publisher forwards each snapshot once.
 // The REAL task bodies of the auditor (membershipFactory), monitor (incrementalFactory) and publisher
@@ -494,6 +494,28 @@ func (w *world) evaluate(r *ev.Run, c tcase, b *protocol.BatchSnapshots, honest 
 			accept = refMonitor(w.tr.lastInc, first, last)
 		}
 	}
+	if !fetched && w.tr.status == 0 && w.tr.ed == nil {
+		// the agent never asked the log at all. What the log would have answered decides whether that
+		// was a verification it owed: the harness asks in its place
+		switch c.Agent {
+		case "monitor":
+			if p, err := w.d.B.QueryConsistency(first.Version, last.Version); err == nil {
+				ir := protocol.ToIncrementalResponse(p)
+				if !refMonitor(ir, first, last) && !got {
+					r.Violation("the monitor raises no alert although the proof does not verify against the published snapshots: it never asked the log ("+tamperClass(c)+")", c)
+				}
+			}
+		case "auditor":
+			if p, err := w.d.B.QueryDigestMembershipConsistency(first.EventDigest, first.Version); err == nil {
+				mr := protocol.ToMembershipResult(nil, p)
+				if stored, _ := w.st.GetSnapshot(mr.CurrentVersion); stored != nil && !refAuditor(mr, first, stored) && !got {
+					r.Violation("the auditor raises no alert although the proof does not verify against the published snapshots: it never asked the log ("+tamperClass(c)+")", c)
+				}
+			}
+		}
+		r.Outcome(fmt.Sprintf("%s: never asked the log, alert=%v", c.Agent, got))
+		return
+	}
 	if !fetched {
 		// the server refused to answer (e.g. a version beyond the log): not a verification verdict
 		r.Outcome(fmt.Sprintf("%s: server answered %d, alert=%v", c.Agent, w.tr.status, got))
@@ -657,6 +679,9 @@ func TestC19(t *testing.T) {
 			publisher(r, w, lg.names, lg.comp)
 			if len(lg.comp) == len(lg.names) {
 				publisherConcurrent(r, w)
+				if len(lg.names) == 4 {
+					throughProcessor(r, w)
+				}
 			}
 		}
 		d.Close()
@@ -755,6 +780,74 @@ func publisher(r *ev.Run, w *world, names []string, comp []int) {
 				r.Distinct(fmt.Sprint("pub", c))
 			}
 		}
+	}
+}
+
+// ---------------------------------------------------------------- through the real batch processor
+//
+// In a running agent the task factories sit behind gossip.BatchProcessor, which drops batches it has
+// already processed. An honest batch and an altered copy of it (same signatures, another history digest)
+// are delivered to the agent's real In bus in both orders; the real processor loop, the real buses and
+// the real auditor and monitor tasks run under the controlled scheduler. The altered copy must raise an
+// alert whichever arrives first.
+
+func throughProcessor(r *ev.Run, w *world) {
+	n := len(w.pub)
+	if n < 3 {
+		return
+	}
+	for _, order := range []string{"honest first", "altered first"} {
+		order := order
+		body := func(x *sx.Exec) {
+			var pw *world
+			var bp *gossip.BatchProcessor
+			sx.Setup(func() {
+				var err error
+				pw, err = newWorld(w.d, w.d, w.digest)
+				if err != nil {
+					panic(err)
+				}
+				bp = gossip.NewBatchProcessor(pw.agent, []gossip.TaskFactory{cmd.VerifAuditorFactory(), cmd.VerifMonitorFactory()}, nil)
+			})
+			pw.agent.In.Subscribe(gossip.BatchMessageType, bp, 255)
+			honest := cloneBatch(pw.pub[0:3])
+			altered := cloneBatch(pw.pub[0:3])
+			altered.Snapshots[0].Snapshot.HistoryDigest = flipped(altered.Snapshots[0].Snapshot.HistoryDigest)
+			seq := []*protocol.BatchSnapshots{honest, altered}
+			if order == "altered first" {
+				seq = []*protocol.BatchSnapshots{altered, honest}
+			}
+			for _, b := range seq {
+				payload, _ := b.Encode()
+				m := &gossip.Message{Kind: gossip.BatchMessageType, TTL: 0, Payload: payload}
+				wire, _ := m.Encode()
+				pw.agent.VerifNotifyMsg(wire)
+				sx.AwaitQuiescence("batch processed")
+			}
+			bp.Stop()
+			x.Observe(fmt.Sprintf("%s: %d alerts", order, len(pw.nt.alerts)))
+			if len(pw.nt.alerts) == 0 {
+				x.Fail("an altered copy of a batch (same signatures, another history digest) raises no alert when it reaches an agent through its batch processor ("+order+")", order)
+			}
+		}
+		e := &sx.Explorer{MaxBound: 1, DelayBounding: true, MaxSteps: 3000, Body: body}
+		e.OnFailure = func(x *sx.Exec, f sx.Failure, schedule []int) {
+			r.Violation(f.Sig, map[string]interface{}{"schedule": append([]int{}, schedule...)})
+		}
+		e.Run()
+		if okr, badr := e.ValidateReplays(); badr > 0 {
+			r.Violation("HARNESS: NONDETERMINISM: an explored schedule does not reproduce when replayed", nil)
+		} else {
+			r.Validated(okr)
+		}
+		r.Eval(e.Execs)
+		r.States(e.Execs)
+		r.Transitions(e.PointsTotal)
+		r.Distinct("through the processor: " + order)
+		for k := range e.Outcomes {
+			r.Outcome("through the processor " + k)
+		}
+		fmt.Printf("[c19] through the processor (%s): execs=%d points=%d outcomes=%d failures=%v\n", order, e.Execs, e.PointsTotal, len(e.Outcomes), e.Failures)
 	}
 }
 
